@@ -218,6 +218,10 @@ def run(ctx):
             n4 += 1
             ctx.bad("C14-K4", "%s#range-loop" % b["id"], txt, b["blocks"][head]["term"].get("span", b["span"]))
     ctx.floor("C14-K4", n4, 4, "loops over file-derived ranges")
+    # the /Prev walk: its loop guard compares offsets of one kind (a cycle of /Prev pointers must end in an error whatever precedes the header)
+    import c17
+    ctx.rule("C14-K5", "the guard of the /Prev walk stores and looks up offsets of the same kind (shared with C17-UNITS #visited-offsets)")
+    c17.rule_seen_units(ctx, f, "C14-K5")
     return ctx.finish(
         "Static analysis of MIR facts: call graph instantiated with the concrete types of generic loaders (substitution + impl lookup), cycle "
         "enumeration with guard / budget / owned-descent / single-step witnesses; interprocedural taint of file numbers with type bounds, "
